@@ -311,6 +311,9 @@ func (x *Exec) mergeVal(cond string, va, vb Val, hint string) Val {
 	if strings.HasPrefix(hint, "famarr:") {
 		return Val{T: x.c.define("famarr", "(Array Int (Array Int "+hint[7:]+"))", ite(cond, va.T, vb.T))}
 	}
+	if strings.HasPrefix(hint, "famrecvn:") {
+		return Val{T: x.c.define("famrecvn", "(Array Int Int)", ite(cond, va.T, vb.T))}
+	}
 	if strings.HasPrefix(hint, "famn:") {
 		return Val{T: x.c.define("famn", "(Array Int Int)", ite(cond, va.T, vb.T))}
 	}
